@@ -357,7 +357,7 @@ impl Accept {
                     self.avail.set_available(idx, false);
                 }
                 #[cfg(actix_net_verif)]
-                crate::verif::point("inc", self.next);
+                crate::verif::point("inc", verif::rotation_state(self));
                 self.set_next();
                 Ok(())
             }
